@@ -1,0 +1,47 @@
+//go:build verif
+
+// Contracts for the verif build tag (comment-only; see /verif/DESIGN.md §4).
+package exporter
+
+// ---------------------------------------------------------------------------
+// CreateIPFIXMsg (C02: RFC 7011 message layout; C09: exact 65535 boundary; C16: bytes serialized == set length)
+// ---------------------------------------------------------------------------
+
+//@ // byte k of record r's buffer (data records: the cached buffer; template records: the record buffer)
+//@ pure recBufAt(r entities.Record, k int) int = r.(*baseRecord).buffer[k]
+//@ pure theSet(s entities.Set) *set = s.(*set)
+//@
+//@ func CreateIPFIXMsg(set, obsDomainID, seqNumber, exportTime) (out, err)
+//@   requires set:  is(set, *set) && setInv(theSet(set)) && recsSafe(theSet(set)) && !theSet(set).isDecoding
+//@   requires enc:  forall i in [0, len(theSet(set).records)): is(theSet(set).records[i], *dataRecord) ==> !theSet(set).records[i].(*dataRecord).isDecoding
+//@   ensures  size: (err != nil) <==> old(16 + theSet(set).length > 65535)
+//@   ensures  errnil: err != nil ==> isnil(out)
+//@   ensures  len:  err == nil ==> len(out) == 16 + old(theSet(set).length) && fresh(out)
+//@   ensures  hdr:  err == nil ==> be16(out, 0) == 10 && be16(out, 2) == len(out)
+//@                    && be32(out, 4) == (exportTime / 1000000000) % 4294967296 && be32(out, 8) == seqNumber && be32(out, 12) == obsDomainID
+//@   ensures  sethdr: err == nil ==> forall q in [16, 20): out[q] == old(theSet(set).headerBuffer[q - 16])
+//@   ensures  recs: err == nil ==> forall i in [0, len(theSet(set).records)):
+//@                    forall q in [20 + sumRec(theSet(set).records, i), 20 + sumRec(theSet(set).records, i) + recLen(theSet(set).records[i])):
+//@                       out[q] == recBufAt(theSet(set).records[i], q - 20 - sumRec(theSet(set).records, i))
+//@   ensures  tplsame: forall j in [0, len(theSet(set).records)): is(theSet(set).records[j], *templateRecord) ==>
+//@                    theSet(set).records[j].(*templateRecord).buffer == old(theSet(set).records[j].(*templateRecord).buffer)
+//@   ensures  setsame: theSet(set).records == old(theSet(set).records) && theSet(set).length == old(theSet(set).length)
+//@   modifies theSet(set).records[*].(*baseRecord).buffer
+//@   loop 1 invariant cnt:  0 <= $i && $i <= len(theSet(set).records)
+//@   loop 1 invariant idx:  index == 20 + sumRec(theSet(set).records, $i) && index <= msgLen
+//@   loop 1 invariant out:  len(bytesSlice) == msgLen && fresh(bytesSlice) && msgLen == 16 + theSet(set).length && msgLen <= 65535
+//@   loop 1 invariant hdr:  be16(bytesSlice, 0) == 10 && be16(bytesSlice, 2) == msgLen
+//@                    && be32(bytesSlice, 4) == (exportTime / 1000000000) % 4294967296 && be32(bytesSlice, 8) == seqNumber && be32(bytesSlice, 12) == obsDomainID
+//@   loop 1 invariant total: 20 + sumRec(theSet(set).records, len(theSet(set).records)) == msgLen
+//@   loop 1 invariant tplsame: forall j in [0, len(theSet(set).records)): is(theSet(set).records[j], *templateRecord) ==>
+//@                    theSet(set).records[j].(*templateRecord).buffer == old(theSet(set).records[j].(*templateRecord).buffer)
+//@   loop 1 invariant cached: forall j in [0, $i): is(theSet(set).records[j], *dataRecord) ==>
+//@                    len(theSet(set).records[j].(*dataRecord).buffer) == theSet(set).records[j].(*dataRecord).len
+//@   loop 1 invariant distinct: forall j in [0, len(theSet(set).records)): arr(theSet(set).records[j].(*baseRecord).buffer) != arr(bytesSlice)
+//@   loop 1 invariant sethdr: forall q in [16, 20): bytesSlice[q] == old(theSet(set).headerBuffer[q - 16])
+//@   loop 1 invariant recs: forall i in [0, $i):
+//@                    forall q in [20 + sumRec(theSet(set).records, i), 20 + sumRec(theSet(set).records, i) + recLen(theSet(set).records[i])):
+//@                       bytesSlice[q] == recBufAt(theSet(set).records[i], q - 20 - sumRec(theSet(set).records, i))
+//@   loop 1 hint next: $i < len(theSet(set).records) ==> sumRec(theSet(set).records, $i + 1) == sumRec(theSet(set).records, $i) + recLen(theSet(set).records[$i])
+//@                    && sumRec(theSet(set).records, $i + 1) <= sumRec(theSet(set).records, len(theSet(set).records))
+//@   loop 1 decreases len(theSet(set).records) - $i
